@@ -1349,6 +1349,11 @@ class SFilter(Sym):
     def sym_truthy(self, vm):
         return self.nonempty
 
+    def sym_len(self, vm):
+        c = vm.fresh('count')
+        vm.assume(z3.And(c >= 0, (c > 0) == self.nonempty, c <= self.seq.length))
+        return SInt(c)
+
     def first(self, vm):
         if getattr(self, '_first', None) is not None and self._first[0] is vm.path:
             return self.seq.elem(self._first[1])          # the same list object: the same first element
